@@ -360,7 +360,11 @@ def uk(model):
                         and isinstance(n.func.value, ast.Attribute) and n.func.value.attr == cont:
                     blk = _block(_stmt(n))
                     paired = any(a in [x for s in blk for x in ast.walk(s)] for a in appends)
-                    if paired:
+                    # ... and under the same conditions: outside maths
+                    fn2 = n._fn
+                    guarded = any(t is False and isinstance(e, ast.Name) and e.id in fn2.params
+                                  for e, t in guards.facts(n))
+                    if paired and guarded:
                         r.ok(n, 'companion container %s changes only together with the list' % cont,
                              nontrivial=True)
                     else:
